@@ -72,7 +72,7 @@ theorem recOK_none (b : BW) (acc : Bytes) (h : b.buffer.Inv acc) : RecOK b none 
   case calledRead => exact absurd hs hn
   case init =>
     obtain ⟨_, _, c, r, _⟩ := h.noFile (by simp [hs])
-    simp [RecOK, runDefers, BW.close, Writer.reader, Writer.closeRdr, Writer.close, hs, c, r]
+    simp [RecOK, runDefers, BW.close, Writer.reader, Writer.close, hs, c, r]
   case mem =>
     obtain ⟨_, _, c, r, _⟩ := h.noFile (by simp [hs])
     simp [RecOK, runDefers, BW.close, Writer.reader, Writer.closeRdr, Writer.close, hs, c, r]
